@@ -333,6 +333,24 @@ def run(tier):
     ck.evaluations += 1
     if r.status != 0:
         ck.violation('witness:unprototyped-compat', 'redeclaration of an unprototyped function with a compatible prototype rejected: %s' % r.err[:150].decode('latin-1'), {'input.c': w})
+    # expressions that only exist inside a function (variably modified operands): the selected _Generic arm is read from the emitted 'ret'
+    GEN = 'int: 1, unsigned: 2, long: 3, unsigned long: 4, long long: 5, unsigned long long: 6, char: 7, default: 99'
+    FPROBES = [('int a[n]; return _Generic(sizeof a, %s);', 4), ('int a[n]; int (*p)[n] = &a; return _Generic(sizeof *p, %s);', 4), ('return _Generic(sizeof(int[n]), %s);', 4), ('int a[n][2]; return _Generic(sizeof a[0], %s);', 4),
+               ('int a[n]; return _Generic(sizeof a - 100, %s);', 4), ('int a[n]; return _Generic(sizeof a > -1, %s);', 1), ('int a[n]; return _Generic(_Alignof(int[n]), %s);', 4), ('int a[n]; return _Generic(a[0], %s);', 1),
+               ('long a[n][n]; return _Generic(&a[1] - &a[0], %s);', 3), ('char a[n]; return _Generic(*a, %s);', 7), ('int a[n]; return _Generic(sizeof(a) + 1u, %s);', 4), ('int a[n]; return _Generic(-sizeof a, %s);', 4),
+               ('typedef int T[n]; return _Generic(sizeof(T), %s);', 4), ('int a[n]; return _Generic(1 ? sizeof a : 0, %s);', 4), ('int a[n]; return _Generic(sizeof a / sizeof a[0], %s);', 4)]
+    for t in common.TARGETS:
+        for k, (body, want) in enumerate(FPROBES):
+            src = 'int fp%d(int n) { %s }\n' % (k, body % GEN)
+            r = common.cproc(exe, text=src, target=t)
+            ck.evaluations += 1
+            ck.decided += 1
+            ck.count('operator', 'vla-probe')
+            mret = re.search(r'\n\tret (\d+)\n', r.out.decode('latin-1'))
+            if r.status != 0 or not mret:
+                ck.violation('vla:reject', 'valid probe not compiled to a constant return (-t %s): %s %s' % (t, src.strip(), r.err[:150].decode('latin-1')), {'input.c': src})
+            elif int(mret.group(1)) != want:
+                ck.violation('vla:%d' % k, '_Generic selects arm %s, C11 gives arm %d (-t %s): %s' % (mret.group(1), want, t, src.strip()), {'input.c': src})
     for d in alld:
         ck.distinct.add(d.meta[3])
     ck.exhaustive = True
